@@ -70,6 +70,9 @@ func H_MathConformance() {
 	safeDec("dec.max", func() sdkmath.LegacyDec { return sdkmath.LegacyMaxDec(x, y) })
 	safeDec("dec.power3", func() sdkmath.LegacyDec { return y.Power(3) })
 	safeDec("dec.power0", func() sdkmath.LegacyDec { return y.Power(0) })
+	safeDec("dec.sqrt", func() sdkmath.LegacyDec { r, _ := x.Abs().ApproxSqrt(); return r })
+	safeDec("dec.root3", func() sdkmath.LegacyDec { r, _ := y.Abs().ApproxRoot(3); return r })
+	safeDec("dec.sqrt1p", func() sdkmath.LegacyDec { r, _ := sdkmath.LegacyOneDec().Add(x.Abs().QuoInt64(1000000007)).ApproxSqrt(); return r })
 	safeDec("dec.addmut", func() sdkmath.LegacyDec { c := x.Clone(); c.AddMut(y); return c })
 	safeDec("dec.mulmut", func() sdkmath.LegacyDec { c := x.Clone(); c.MulMut(y); return c })
 	safeInt("dec.truncint", func() sdkmath.Int { return x.TruncateInt() })
